@@ -48,9 +48,10 @@ func usage() {
 
 // traceWriter writes one JSON object per line.
 type traceWriter struct {
-	f *os.File
-	w *bufio.Writer
-	n int
+	f    *os.File
+	w    *bufio.Writer
+	n    int
+	last map[string]any // held back so that it can still be annotated
 }
 
 func newTraceWriter(path string) (*traceWriter, error) {
@@ -61,17 +62,34 @@ func newTraceWriter(path string) (*traceWriter, error) {
 	return &traceWriter{f: f, w: bufio.NewWriterSize(f, 1<<20)}, nil
 }
 
-func (t *traceWriter) emit(ev map[string]any) {
-	b, err := json.Marshal(ev)
+func (t *traceWriter) flushLast() {
+	if t.last == nil {
+		return
+	}
+	b, err := json.Marshal(t.last)
 	if err != nil {
 		panic(err)
 	}
 	t.w.Write(b)
 	t.w.WriteByte('\n')
+	t.last = nil
+}
+
+func (t *traceWriter) emit(ev map[string]any) {
+	t.flushLast()
+	t.last = ev
 	t.n++
 }
 
+// markLastInflight annotates the most recent event as cut by a crash.
+func (t *traceWriter) markLastInflight() {
+	if t.last != nil {
+		t.last["inflight"] = true
+	}
+}
+
 func (t *traceWriter) close() error {
+	t.flushLast()
 	if err := t.w.Flush(); err != nil {
 		return err
 	}
